@@ -157,6 +157,7 @@ impl<'a> LTr<'a> {
                 let r: ExprRepeat = syn::parse2(quote::quote!([#ts])).map_err(|e| e.to_string())?;
                 self.expr(&Expr::Repeat(r))
             }
+            Expr::Tuple(t) if t.elems.is_empty() => Ok(("()".into(), LTy::Unit)),
             Expr::Struct(s) => self.struct_lit(s),
             Expr::MethodCall(m) => self.method_call(m),
             Expr::Call(c) => self.call(c),
